@@ -237,6 +237,11 @@ func (e *Engine) AddSpecFile(sf *SpecFile) error {
 		e.pure[e.resolveKey(sf.PkgPath, p, sf.PkgPath == "")] = true
 	}
 	for _, p := range sf.Ignore {
+		if strings.HasPrefix(p, "pkg ") {
+			path := strings.TrimSpace(p[4:])
+			e.ignore = append(e.ignore, path+".*", "("+path+".*", "(*"+path+".*")
+			continue
+		}
 		e.ignore = append(e.ignore, e.resolveKey(sf.PkgPath, p, true))
 	}
 	return nil
